@@ -26,13 +26,33 @@ def named_product(**items: Sequence[Any]):
     return [dict(zip(names, res)) for res in product(*vals)]
 
 
-def _snapshot(learner) -> dict[str, Any]:
+def _nested_learners(learner) -> dict[str, Any]:
+    """Learners held as attributes of `learner` (a DataSaver's wrapped learner)."""
+    from adaptive.learner.base_learner import BaseLearner
+
+    return {k: v for k, v in learner.__dict__.items() if isinstance(v, BaseLearner)}
+
+
+def _snapshot(learner) -> tuple[dict[str, Any], dict[str, Any]]:
     # A deep copy of the complete state, *including* the pending points and
     # every private attribute (``__getstate__`` of most learners drops those).
     # The learned function is shared, it is never modified by a learner.
+    # A learner held as an attribute is snapshotted the same way and stays the
+    # same object: ``copy.deepcopy`` would rebuild it through ``__getstate__``.
+    nested = _nested_learners(learner)
     function = learner.__dict__.get("function")
     memo = {} if function is None else {id(function): function}
-    return copy.deepcopy(learner.__dict__, memo)
+    memo.update({id(v): v for v in nested.values()})
+    state = copy.deepcopy(learner.__dict__, memo)
+    return state, {k: _snapshot(v) for k, v in nested.items()}
+
+
+def _restore(learner, snapshot) -> None:
+    state, nested = snapshot
+    learner.__dict__.clear()
+    learner.__dict__.update(state)
+    for k, sub in nested.items():
+        _restore(learner.__dict__[k], sub)
 
 
 @contextmanager
@@ -42,8 +62,7 @@ def restore(*learners) -> Iterator[None]:
         yield
     finally:
         for state, learner in zip(states, learners):
-            learner.__dict__.clear()
-            learner.__dict__.update(state)
+            _restore(learner, state)
 
 
 def cache_latest(f: Callable) -> Callable:
